@@ -14,6 +14,7 @@ import (
 	"sync/atomic"
 	"time"
 
+	tdlog "github.com/gotd/log"
 	"github.com/gotd/td/bin"
 	"github.com/gotd/td/pool"
 	"github.com/gotd/td/tdsync"
@@ -27,6 +28,20 @@ const pointInvoke = 1000
 
 // pointCtor: inside the connection constructor the pool calls from createConnection
 const pointCtor = 1001
+
+// pointLogReleased: release wrote its "Connection released" log record (between finding no waiter and putting the
+// connection on the free list)
+const pointLogReleased = 1002
+
+// logGate turns that log record into a scheduling point; no hook in gotd/td is needed.
+type logGate struct{ w *world }
+
+func (l logGate) Enabled(context.Context, tdlog.Level) bool { return true }
+func (l logGate) Log(ctx context.Context, lvl tdlog.Level, msg string, attrs ...tdlog.Attr) {
+	if msg == "Connection released" && l.w.s != nil {
+		l.w.s.Park(pointLogReleased, 0)
+	}
+}
 
 type rec struct {
 	mu sync.Mutex
@@ -131,7 +146,7 @@ func newWorld(r *rec, s *sched.S, max int64, rnd *rand.Rand) *world {
 			w.s.Park(pointCtor, int64(f.id))
 		}
 		return f
-	}, pool.DCOptions{MaxOpenConnections: max})
+	}, pool.DCOptions{MaxOpenConnections: max, Logger: logGate{w}})
 	return w
 }
 
@@ -224,7 +239,7 @@ func name(c int) string { return fmt.Sprintf("c%d", c) }
 var gateOf = map[string]uint16{
 	"A0": verifhook.PoolAcqEnter, "A1": verifhook.PoolAcqPopped, "A2": pointCtor, "A3": verifhook.PoolAcqCreated,
 	"A4pre": verifhook.PoolAcqWaiting, "DelKey": verifhook.PoolAcqGiveUp, "Recv": verifhook.PoolAcqGaveUp,
-	"Invoke": pointInvoke, "R0": verifhook.PoolRelease, "T1": verifhook.PoolTransferSend,
+	"Invoke": pointInvoke, "R0": verifhook.PoolRelease, "R1": pointLogReleased, "T1": verifhook.PoolTransferSend,
 }
 
 func replay(r *rec, trace int, c tr.M, max int64) {
@@ -249,7 +264,7 @@ func replay(r *rec, trace int, c tr.M, max int64) {
 				callers[cc] = true
 				w.start(cc, nil)
 			}
-		case "A0", "A1", "A2", "A3", "A4pre", "DelKey", "Recv", "R0", "T1":
+		case "A0", "A1", "A2", "A3", "A4pre", "DelKey", "Recv", "R0", "R1", "T1":
 			s.ReleaseIfAt(name(cc), gateOf[act])
 		case "A4", "RunDead", "BgRelease", "BgDrop":
 			// happens by itself in the real code
